@@ -239,6 +239,8 @@ fn main() {
     let r = catch(|| {
         if a.mode == "grow" {
             mode_grow(a.seed ^ 0x505, a.thorough)
+        } else if a.mode == "gmixed" {
+            mode_generic_mixed(a.seed ^ 0x505, a.thorough)
         } else {
             mode_histories(a.seed, a.thorough)
         }
